@@ -45,4 +45,6 @@ VARIANTS += [
     M('C08', 'refactor-length-none-test', [E(DR, "                return agg(lengths)\n            else:\n                return None\n", "                length = agg(lengths)\n            else:\n                length = None\n"),
                                            E(DR, "            return self.execute_scalar(sql)\n\n    def get_database_nunique", "            length = self.execute_scalar(sql)\n        return int(length) if length is not None else None\n\n    def get_database_nunique")],
       kind='refactor'),
+    M('C08', 'database-rex-hook-drops-falsy-values', E('tdda/constraints/db/constraints.py', "        return rexpy.extract(sorted(values), seed=seed)", "        return rexpy.extract(sorted(v for v in values if v), seed=seed)"),
+      rule='C08-REXHOOK', key='find_rexes'),
 ]
